@@ -59,6 +59,30 @@ def known_partialord(req):
 
 
 def run_table(binary, kinds=("model", "class")):
+    """the table is a pure function of the vharness binary (which links the current /repo), so it is cached by the
+    binary's hash; any edit of /repo or of the harness changes the binary and re-extracts"""
+    h = hashlib.sha1(open(binary, "rb").read()).hexdigest()[:16]
+    cache = os.path.join(vlib.BUILD, "c20-table-%s.json" % h)
+    if os.path.exists(cache):
+        try:
+            c = json.load(open(cache))
+            return c["subsets"], c["table"], {k: [tuple(x) if x else None for x in v] for k, v in c["jm"].items()}
+        except Exception:
+            pass
+    r = run_table_uncached(binary, kinds)
+    for f in os.listdir(vlib.BUILD):
+        if f.startswith("c20-table-") and f.endswith(".json"):
+            try:
+                os.remove(os.path.join(vlib.BUILD, f))
+            except OSError:
+                pass
+    tmp = cache + ".%d" % os.getpid()
+    json.dump({"subsets": r[0], "table": r[1], "jm": r[2]}, open(tmp, "w"))
+    os.replace(tmp, cache)
+    return r
+
+
+def run_table_uncached(binary, kinds=("model", "class")):
     subsets = powerset(DECORATORS)
     lines = ["%s %s" % (k, ",".join(d) if d else "-") for k in kinds for d in subsets]
     n = 16
@@ -79,10 +103,12 @@ def run_table(binary, kinds=("model", "class")):
     res = [None] * len(lines)
     for i, o in enumerate(outs):
         res[i::n] = o
-    table = {}
+    table, jm = {}, {}
     for ki, k in enumerate(kinds):
-        table[k] = res[ki * len(subsets):(ki + 1) * len(subsets)]
-    return subsets, table
+        rows = res[ki * len(subsets):(ki + 1) * len(subsets)]
+        table[k] = [r if r.startswith("ERR") else r.split("|")[0] for r in rows]
+        jm[k] = [None if r.startswith("ERR") else tuple(r.split("|")[1:3]) for r in rows]
+    return subsets, table, jm
 
 
 def write_gen_table(table):
@@ -101,9 +127,11 @@ def write_gen_table(table):
             "From Coq Require Import ZArith List.", "Import ListNotations.", "Open Scope Z_scope.", ""]
     for k in ("model", "class"):
         rows = [row(r) for r in table[k]]
-        text.append("Definition gen_rows_%s : list Z := concat [" % k)      # chunked: long list literals parse slowly
-        text.append(";\n".join("  [" + "; ".join(rows[i:i + 32]) + "]" for i in range(0, len(rows), 32)))
-        text.append("].\n")
+        names = []                      # chunked into separate definitions: long list literals elaborate slowly
+        for i in range(0, len(rows), 64):
+            names.append("rows_%s_%d" % (k, i // 64))
+            text.append("Definition %s : list Z := [%s]." % (names[-1], "; ".join(rows[i:i + 64])))
+        text.append("Definition gen_rows_%s : list Z := concat [%s].\n" % (k, "; ".join(names)))
     body = "\n".join(text)
     path = os.path.join(vlib.COQ, "C20", "GenTable.v")
     old = open(path).read() if os.path.exists(path) else None
@@ -138,6 +166,9 @@ class Decl:
         s += "%s %s:\n" % (self.kind, self.name)
         for f, t in self.fields:
             s += "    %s: %s\n" % (f, ity(t))
+        if self.kind == "class":
+            # a class without methods gets no impl block, hence no to_json/from_json (finding class-json-methods)
+            s += "\n    def nm(self) -> int:\n        return %d\n" % len(self.fields)
         return s
 
 
@@ -533,7 +564,8 @@ class Prog:
 
 
 def build_program(decls, ftexts):
-    """returns (source, plan). plan: list of records (tag, ids..., nlines) in print order."""
+    """returns (source, plan). plan: list of records (tag, decl, ids..., nlines) in print order.
+    Values are reached through val_<decl>(i) so that main stays small (loops instead of thousands of calls)."""
     P = Prog()
     out = []
     plan = []
@@ -546,6 +578,11 @@ def build_program(decls, ftexts):
         t = ("struct", d)
         for j, v in enumerate(d.values):
             mk.append("def mk_%s_%d() -> %s:\n    return %s\n" % (d.name, j, d.name, P.expr(t, v)))
+        f = "def val_%s(i: int) -> %s:\n" % (d.name, d.name)
+        for j in range(len(d.values) - 1):
+            f += "    if i == %d:\n        return mk_%s_%d()\n" % (j, d.name, j)
+        f += "    return mk_%s_%d()\n" % (d.name, len(d.values) - 1)
+        mk.append(f)
     out.extend(P.helpers)
     out.extend(mk)
     main = []
@@ -554,6 +591,7 @@ def build_program(decls, ftexts):
         ser, de, eq, od = "Serialize" in c, "Deserialize" in c, "PartialEq" in c, "PartialOrd" in c
         hs = "Hash" in c and "Eq" in c
         nm = d.name
+        nv = len(d.values)
         if ser and de:
             f = "def rt_%s(v: %s) -> None:\n    j = json_stringify(v)\n    r = %s.from_json(j)\n    match r:\n        case Ok(w):\n            println(\"ok\")\n            println(json_stringify(w))\n" % (nm, nm, nm)
             f += "            println(bb(w == v))\n" if eq else "            println(\"-\")\n"
@@ -570,41 +608,42 @@ def build_program(decls, ftexts):
                 f += "    println(bb(a < b))\n    println(bb(a <= b))\n    println(bb(a > b))\n    println(bb(a >= b))\n"
             out.append(f)
         out.append("def id_%s(v: %s) -> %s:\n    return v\n" % (nm, nm, nm))
-        for j, v in enumerate(d.values):
-            if ser:
+        if ser:
+            body = ["for i in range(%d):" % nv,
+                    "    println(f\"#J %s {i} 1\")" % nm, "    println(json_stringify(val_%s(i)))" % nm,
+                    "    println(f\"#T %s {i} 1\")" % nm, "    println(val_%s(i).to_json())" % nm]
+            if de:
+                body += ["    println(f\"#R %s {i} 3\")" % nm, "    rt_%s(val_%s(i))" % (nm, nm)]
+            main.append("\n".join(body))
+            for j in range(nv):
                 plan.append(("J", d, j, 1))
-                main.append("println(\"#J %s %d 1\")\nprintln(json_stringify(mk_%s_%d()))" % (nm, j, nm, j))
                 plan.append(("T", d, j, 1))
-                main.append("println(\"#T %s %d 1\")\nprintln(mk_%s_%d().to_json())" % (nm, j, nm, j))
-            if ser and de:
-                plan.append(("R", d, j, 3))
-                main.append("println(\"#R %s %d 3\")\nrt_%s(mk_%s_%d())" % (nm, j, nm, nm, j))
+                if de:
+                    plan.append(("R", d, j, 3))
         if de:
             for q, text in enumerate(ftexts.get(nm, [])):
                 plan.append(("F", d, q, 2))
                 main.append("println(\"#F %s %d 2\")\nfj_%s(%s)" % (nm, q, nm, istr(text)))
         if eq:
             n = 6 if od else 2
-            for j in range(len(d.values)):
-                for q in range(len(d.values)):
+            main.append("for i in range(%d):\n    for j in range(%d):\n        println(f\"#P %s {i} {j} %d\")\n        pr_%s(val_%s(i), val_%s(j))" % (nv, nv, nm, n, nm, nm, nm))
+            for j in range(nv):
+                for q in range(nv):
                     plan.append(("P", d, j, q, n))
-                    main.append("println(\"#P %s %d %d %d\")\npr_%s(mk_%s_%d(), mk_%s_%d())" % (nm, j, q, n, nm, nm, j, nm, q))
         if hs:
             f = "def hs_%s() -> None:\n    mut d: Dict[%s, int] = {}\n" % (nm, nm)
-            for j in range(len(d.values)):
-                f += "    d[mk_%s_%d()] = %d\n" % (nm, j, j)
+            f += "    for i in range(%d):\n        d[val_%s(i)] = i\n" % (nv, nm)
             f += "    println(len(d))\n"
-            for j in range(len(d.values)):
-                f += "    println(bb(mk_%s_%d() in d))\n" % (nm, j)
-            f += "    s: Set[%s] = {%s}\n    println(len(s))\n" % (nm, ", ".join("mk_%s_%d()" % (nm, j) for j in range(len(d.values))))
+            f += "    for i in range(%d):\n        println(bb(val_%s(i) in d))\n" % (nv, nm)
+            f += "    s: Set[%s] = {%s}\n    println(len(s))\n" % (nm, ", ".join("mk_%s_%d()" % (nm, j) for j in range(nv)))
             out.append(f)
-            n = 2 + len(d.values)
+            n = 2 + nv
             plan.append(("H", d, n))
             main.append("println(\"#H %s %d\")\nhs_%s()" % (nm, n, nm))
         # clone: the emitter passes a variable argument as `a.clone()`; then the copy is modified
-        if ser and len(d.values) >= 2:
-            for j in range(min(3, len(d.values))):
-                q = (j + 1) % len(d.values)
+        if ser and nv >= 2:
+            for j in range(min(3, nv)):
+                q = (j + 1) % nv
                 fidx = j % len(d.fields)
                 fname, ft = d.fields[fidx]
                 fn = "cl_%s_%d" % (nm, j)
@@ -771,7 +810,7 @@ def compile_and_run(binary, scratch, name, src):
     os.makedirs(GEN_TARGET, exist_ok=True)
     t0 = time.time()
     rc, so, se = vlib.sh(["cargo", "build", "--release", "--offline", "--quiet"], cwd=proj,
-                         env={"CARGO_TARGET_DIR": GEN_TARGET, "RUSTFLAGS": "-Awarnings"}, timeout=3000)
+                         env={"CARGO_TARGET_DIR": GEN_TARGET, "CARGO_PROFILE_RELEASE_OPT_LEVEL": "0"}, timeout=3000)
     vlib.log("[c20] cargo build %s rc=%d in %.1fs" % (name, rc, time.time() - t0))
     if rc != 0:
         if "error: could not compile" in se or "error[" in se:
@@ -805,10 +844,12 @@ def flags(xs):
 def run_batch(chk, binary, scratch, name, decls, ftexts, res, model_ok):
     """one program: build, run, compare with model and oracle. Returns list of failure dicts."""
     src, plan = build_program(decls, ftexts)
+    t3 = time.time()
     status, out = compile_and_run(binary, scratch, name, src)
+    vlib.log("[c20] batch %s generated, built and run in %.1fs (%d records)" % (name, time.time() - t3, len(plan)))
     fails, corr = [], []
     if status != "ok":
-        detail = {"batch": name, "stage": status, "message": out[-4000:], "program": src}
+        detail = {"batch": name, "stage": status, "message": out if len(out) < 6000 else out[:3500] + "\n...\n" + out[-2500:], "program": src}
         if status == "rustc" and not DERIVE_ERR.search(out):
             raise vlib.Infra("generated batch %s does not build for a reason outside C20:\n%s" % (name, out[-3000:]))
         detail["why"] = "a generated program of derived models/classes that builds on the verified tree no longer builds/runs"
@@ -852,7 +893,9 @@ def run_batch(chk, binary, scratch, name, decls, ftexts, res, model_ok):
     model = {}
     if model_ok and terms:
         req = "From Verif Require Import Base.I64 C20.Model.\nFrom Coq Require Import ZArith List.\nImport ListNotations.\nOpen Scope Z_scope."
+        t2 = time.time()
         vals = vlib.coq_eval(req, "list Z", "fun x => x", terms, shard=150, tag="c20" + name)
+        vlib.log("[c20] model evaluation of %d cases in %.1fs" % (len(terms), time.time() - t2))
         model = dict(zip(idx, vals))
     # ---- compare
     n_model = 0
@@ -1010,6 +1053,10 @@ WITNESS = {
 
 
 def table_row(binary, kind, ds):
+    return vlib.run_harness(binary, ["run", "c20", "table"], "%s %s\n" % (kind, ",".join(ds) if ds else "-")).strip().split("|")[0]
+
+
+def table_row_full(binary, kind, ds):
     return vlib.run_harness(binary, ["run", "c20", "table"], "%s %s\n" % (kind, ",".join(ds) if ds else "-")).strip()
 
 
@@ -1040,16 +1087,33 @@ def run(chk):
         "HashMap iteration order is an oracle: the model prints dict entries in the order observed in the implementation's output",
         "enums, newtypes, generics, field defaults and inheritance are not generated",
     ]
+    tb = time.time()
     binary = vlib.build_harness("debug")
+    vlib.log("[c20] harness ready after %.1fs" % (time.time() - tb))
     res = {"dist": {}, "known_hits": {}}
     fails, corr = [], []
 
     # ---- tie (a): the derive table, exhaustively, from the real code
     t0 = time.time()
-    subsets, table = run_table(binary)
+    subsets, table, jm = run_table(binary)
     thash, changed = write_gen_table(table)
     chk.coverage["derive_table"] = {"rows": 2 * len(subsets), "sha1": thash, "extract_s": round(time.time() - t0, 1)}
-    known_rows = {"derive-partialord": 0, "derive-display": 0}
+    known_rows = {"derive-partialord": 0, "derive-display": 0, "class-json-methods": 0}
+    # to_json / from_json are generated by emit_impl, i.e. only where an impl block is lowered
+    for kind in ("model", "class", "modelm", "classm"):
+        for req in ([], ["Serialize"], ["Deserialize"], ["Serialize", "Deserialize"], ["Deserialize", "Eq", "Serialize", "Ord"]):
+            full = table_row_full(binary, kind, req) if kind.endswith("m") else None
+            flags = tuple(full.split("|")[1:3]) if full else jm[kind][subsets.index([d for d in DECORATORS if d in req])]
+            want = (str(int("Serialize" in req)), str(int("Deserialize" in req)))
+            chk.count_case(("jsonmethods", kind, tuple(req), flags))
+            if flags != want:
+                if kind == "class" and flags == ("0", "0"):
+                    known_rows["class-json-methods"] += 1
+                    if is_known(chk, "class-json-methods"):
+                        continue
+                fails.append({"record": "jsonmethods %s %s" % (kind, ",".join(req) or "-"),
+                              "decl": "@derive(%s)\n%s M:\n    x: int\n" % (", ".join(req), kind),
+                              "why": "inherent (to_json, from_json) emitted = %s, the derives require %s" % (flags, want)})
     for kind in ("model", "class"):
         for req, row in zip(subsets, table[kind]):
             chk.count_case(("table", kind, tuple(req), row), nontrivial=not row.startswith("ERR"))
@@ -1080,7 +1144,10 @@ def run(chk):
     res["dist"]["table"] = 2 * len(subsets)
 
     # ---- proofs (GenTable.v is part of the development)
+    vlib.log("[c20] table stage %.1fs" % (time.time() - t0))
+    t1 = time.time()
     pres = chk.proof_stage("C20", allow_axioms=())
+    vlib.log("[c20] Props.vo checked after %.1fs" % (time.time() - t1))
     model_ok = vlib.coq_build(["C20/Model.vo"])[0]
     if not model_ok:
         pres["tie_ok"] = False
@@ -1088,6 +1155,7 @@ def run(chk):
     # the refutation witnesses live in their own file so that a FIX of a finding does not break Props.v
     kok, klog = vlib.coq_build(["C20/PropsKnown.vo"])
     chk.coverage["known_witness_theorems_hold"] = bool(kok)
+    vlib.log("[c20] proof stage %.1fs" % (time.time() - t1))
 
     # ---- tie (b) + oracle: generated programs
     scratch = scratch_dir(chk)
@@ -1097,7 +1165,7 @@ def run(chk):
         suffix = "" if vlib.ALT is None else "_" + hashlib.sha1(vlib.REPO.encode()).hexdigest()[:6]
         for bi in range(nb):
             tag = "Q%d" % bi if chk.tier == "quick" else "T%d" % bi
-            ndecl = 14 if chk.tier == "quick" else 22
+            ndecl = 10 if chk.tier == "quick" else 20
             decls = gen_decls(chk.rng, ndecl, tag + "d")
             for d in decls:
                 t = ("struct", d)
@@ -1114,6 +1182,7 @@ def run(chk):
             if bi == 0:
                 for d in decls[:2]:
                     chk.sample(d.src() + "# value: " + repr(d.values[0])[:300])
+        vlib.log("[c20] batches done at %.1fs" % (time.time() - chk.t0))
         # ---- known findings: replay the witnesses on the real code
         for f in chk.findings:
             if f.get("status") != "known":
@@ -1133,6 +1202,13 @@ def run(chk):
                 if "Display" in row.split(","):
                     if chk.tier == "thorough":
                         st, out = compile_and_run(binary, scratch, "c20_w_display" + suffix, WITNESS[fid])
+                        if st != "rustc":
+                            continue
+                    chk.known(fid, "%s: %s" % (fid, f["summary"]))
+            elif fid == "class-json-methods":
+                if known_rows["class-json-methods"]:
+                    if chk.tier == "thorough":
+                        st, out = compile_and_run(binary, scratch, "c20_w_classjson" + suffix, f["witness"])
                         if st != "rustc":
                             continue
                     chk.known(fid, "%s: %s" % (fid, f["summary"]))
